@@ -371,10 +371,29 @@ def fixOne (ss : List Stmt) (i : Nat) (s : Stmt) : Outcome Stmt :=
         | o => o
       | o => o
 
+/-- `Statement.fit_operand_width` (fix: the operand field is as wide as the instruction form says — the size
+less op code and post byte — however the value was spelt; a value that does not fit is a TranslationError).
+`digits` counts hex digits; a negative value is stored in two's complement at that width. -/
+def fitWidth (s : Stmt) : Outcome Stmt :=
+  if (s.row.isPseudo && !(s.row.isMultiByte || s.row.isMultiWord)) || s.row.isSpecial then .ok s else
+  match s.pkg.additional with
+  | .numeric n _ _ neg =>
+    match s.pkg.opCode.hexLen?, s.pkg.postByte.hexLen? with
+    | some a, some b =>
+      let digits : Int := 2 * (s.pkg.size : Int) - a - b
+      if digits = 2 ∨ digits = 4 then
+        (match fitNum n neg digits.toNat with
+         | .ok v => .ok { s with pkg := { s.pkg with additional := v } }
+         | .error _ => .diag)
+      else .diag
+    | _, _ => .internal
+  | _ => .ok s
+
+/-- the loop `fix_addresses; fit_operand_width` over all statements -/
 def fixAll (ss : List Stmt) : Nat → List Stmt → Outcome (List Stmt)
   | _, [] => .ok []
   | i, s :: rest =>
-    match fixOne ss i s with
+    match (match fixOne ss i s with | .ok s1 => fitWidth s1 | o => o) with
     | .ok s' => (match fixAll ss (i + 1) rest with | .ok r => .ok (s' :: r) | o => o)
     | .diag => .diag
     | .internal => .internal
